@@ -4,8 +4,9 @@ import Mathlib.Algebra.Field.Defs
 /-!
 # Code model of `cola/linalg/eig/eigs.py`, `get_slice` and `cola/linalg/eig/power_iteration.py`
 
-What the code DOES (NumPy backend; state of /repo after the fixes `bb973bc`, `d3bb5ef`, `3dd8195` and the
-selection fix):
+What the code DOES (NumPy backend; state of /repo with the five C10 fixes landed — `9624153` selection by magnitude,
+`bb973bc` / `d3bb5ef` Triangular rule, `3dd8195` / `1c54ca4` power iteration; the one recorded finding left is
+`lobpcg-drops-smallest`):
 
 * `get_slice(k, which)` (`decompositions.py`): `'SM'` ↦ `slice(0, k)`, `'LM'` ↦ `slice(-k, None)` — POSITIONAL
   (`getSlice`).  `-0 = 0`, so `k = 0` with `'LM'` selects everything (documented quirk, outside `1 ≤ k`).
